@@ -35,11 +35,50 @@ def _engine_call(f, method):
     return [e for e in f.stmts() if e.node.get("k") == "mcall" and e.node.get("callee") == EB + "::" + method]
 
 
+def _waits(f):
+    return [e for e in f.stmts() if e.node.get("k") == "mcall" and e.node.get("callee", "").startswith("std::condition_variable") and last(e.node["callee"]) in common.CV_WAIT]
+
+
 def _wait(f):
-    ws = [e for e in f.stmts() if e.node.get("k") == "mcall" and e.node.get("callee", "").startswith("std::condition_variable") and last(e.node["callee"]) in common.CV_WAIT]
-    if len(ws) != 1:
-        raise AnalysisBroken("%s: expected one condition-variable wait, found %d" % (short(f.name), len(ws)))
-    return ws[0]
+    """the wait that parks the caller for the connect result: the first one (it dominates every other wait); further waits are
+    judged by C04-R11"""
+    ws = _waits(f)
+    first = [w for w in ws if all(w is x or elem_dominates(f, w, x) for x in ws)]
+    if len(first) != 1:
+        raise AnalysisBroken("%s: expected one parking condition-variable wait, found %d candidates among %d waits" % (short(f.name), len(first), len(ws)))
+    return first[0]
+
+
+def r11(ctx, r):
+    """'... no later than its timeout plus a bounded slack': every blocking step of connectSync is a timed wait whose bound is
+    the caller's timeout, and no path parks twice (the sum of two full timeouts is not timeout + slack)."""
+    f = _cs(ctx)
+    ws = _waits(f)
+    if not ws:
+        raise AnalysisBroken("connectSync: no condition-variable wait")
+    tparam = [p_["n"] for p_ in f.params if "chrono" in p_["t"]]
+    if len(tparam) != 1:
+        raise AnalysisBroken("connectSync: timeout parameter not identified")
+    for w in ws:
+        r.instance()
+        m = last(w.node["callee"])
+        timed = m in ("wait_for", "wait_until")
+        bound = timed and any(x.get("k") == "var" and x.get("n") == tparam[0] for a in w.node.get("args", []) for x in walk(a))
+        r.expect(timed and bound, f, w, "unbounded wait in connectSync", "connectSync blocks in `%s` %s: the call can return later than timeout + slack — as late as the I/O thread (a slow name lookup of another "
+                 "caller, a long user callback, a command backlog) gets round to it" % (show(w.node)[:60], "without any time bound" if not timed else "with a bound that is not the caller's timeout"),
+                 okdesc="wait bounded by the caller's timeout")
+    for a in ws:
+        for b in ws:
+            if a is not b and search(f, a, lambda x, b=b: x is b, eh=False) is not None:
+                r.instance()
+                r.fail(f, b, "connectSync parks twice", "a path of connectSync waits at line %d and again at line %d: the total is not bounded by one timeout" % (a.line, b.line))
+    # blocking calls other than the waits: joins, sleeps, futures
+    for e in f.stmts():
+        n = e.node
+        if n.get("k") in ("mcall", "call") and (last(n.get("callee", "")) in ("join", "sleep_for", "sleep_until", "get") and ("std::thread" in n.get("callee", "") or "this_thread" in n.get("callee", "") or "std::future" in n.get("callee", ""))):
+            r.instance()
+            r.fail(f, e, "blocking call in connectSync", "connectSync calls %s" % n["callee"])
+
 
 
 def r1(ctx, r):
@@ -438,4 +477,6 @@ def run(ctx, ck):
     ck.run_rule("C04-R7", "I/O-thread guard precedes the first lock in the synchronous operations", "A2 dominance", lambda r: r7(ctx, r))
     ck.run_rule("C04-R8", "cancellable connect tests the token before every attempt and bounds each sub-wait", "A5 + dataflow", lambda r: r8(ctx, r))
     ck.run_rule("C04-R10", "the entry of a timed-out waiter survives until the close it caused is reported", "protocol rule: mark under lock on the timeout path, tested before the other eraser", lambda r: r10(ctx, r))
+    ck.run_rule("C04-R11", "connectSync blocks only in one wait bounded by the caller's timeout", "closed set of blocking calls + path search", lambda r: r11(ctx, r))
+    ck.run_rule("C04-R12", "a stale connect/handshake timer cannot close a connect that completed (= C02-R4)", "A5 + A3", lambda r: __import__("iora_sa.props.c02", fromlist=["r4"]).r4(ctx, r))
     ck.run_rule("C04-R9", "a successful sub-attempt is returned or closed, never dropped", "A5", lambda r: r9(ctx, r))
